@@ -511,6 +511,7 @@ type AssignTarget struct {
 	All  bool   // everything
 	Expr Expr   // p.f | s[*] (EIndex with I==EIdent{"*"}) | ...
 	Map  string // "T::f" whole field map
+	Elems bool  // "elements": all element/cell maps
 }
 
 type FuncSpec struct {
@@ -588,6 +589,7 @@ type SpecFile struct {
 	SpecFuncs []*SpecFunc
 	Lemmas    []*Lemma
 	Axioms    []Clause
+	Imports   map[string]string // alias -> import path (disambiguates packages that share a name)
 }
 
 type bigInt = bigIntT
@@ -682,6 +684,16 @@ func parseContractFile(path, pkgPath string) (*SpecFile, error) {
 				s.Body = e
 			}
 			sf.SpecFuncs = append(sf.SpecFuncs, s)
+		case "import":
+			// import ALIAS "path": in this contract file ALIAS names exactly that package
+			fs := strings.Fields(rest)
+			if len(fs) != 2 {
+				return nil, fail(fmt.Errorf("import: want ALIAS \"path\""))
+			}
+			if sf.Imports == nil {
+				sf.Imports = map[string]string{}
+			}
+			sf.Imports[fs[0]] = strings.Trim(fs[1], "\"")
 		case "axiom":
 			// optional trigger:  axiom {dv(s, d); p10(s)} forall ...
 			var trig []Expr
@@ -894,6 +906,9 @@ func parseContractFile(path, pkgPath string) (*SpecFile, error) {
 				case part == "nothing":
 				case part == "everything" || part == "*":
 					cur.Assigns = append(cur.Assigns, AssignTarget{Src: part, All: true})
+				case part == "elements":
+					// every slice element / pointer cell (anything that is not a struct field or a map)
+					cur.Assigns = append(cur.Assigns, AssignTarget{Src: part, Elems: true})
 				case strings.Contains(part, "::"):
 					cur.Assigns = append(cur.Assigns, AssignTarget{Src: part, Map: part})
 				default:
